@@ -76,8 +76,10 @@ Booth-loop model, since `Hash` upper-cases first) -/
 theorem hashWith_of_upper_eq (rot : Str → Option Str) (blake : List UInt8 → List UInt8) {s s' : Str}
     (h : upper s' = upper s) (ty : String) (c d : Bool) :
     hashWith rot blake s' ty c d = hashWith rot blake s ty c d := by
+  have hany : s'.any (fun c => decide (c.toNat > 127)) = s.any (fun c => decide (c.toNat > 127)) := by
+    rw [← any_nonascii_upper s', ← any_nonascii_upper s, h]
   unfold hashWith
-  rw [h]
+  rw [h, hany]
 
 theorem hash_of_upper_eq (blake : List UInt8 → List UInt8) {s s' : Str} (h : upper s' = upper s)
     (ty : String) (c d : Bool) : hashSpec blake s' ty c d = hashSpec blake s ty c d :=
@@ -152,6 +154,59 @@ theorem hash_rna_dna (blake : List UInt8 → List UInt8) (s : Str) (c d : Bool) 
   constructor
   · congr 1
   · simp [v1, v1_prefix, tag]
+
+/-- the same for ANY DNA spelling of the RNA sequence (any case: `upper s' = uToT (upper s)`), in
+particular the case-preserving one (`U → T`, `u → t`) the check's driver also sends -/
+theorem hash_rna_dna_spelling (blake : List UInt8 → List UInt8) (s s' : Str) (c d : Bool) (h : Str)
+    (hs : upper s' = uToT (upper s)) (hr : hashSpec blake s "RNA" c d = .ok h) :
+    hashSpec blake s' "DNA" c d = .ok (h.set 3 'D') ∧ h[3]? = some 'R' := by
+  have h0 := hash_rna_dna blake s c d h hr
+  have hu : upper (uToT (upper s)) = uToT (upper s) := by
+    -- accepted RNA input: the letters of `uToT (upper s)` are upper-case nucleotide letters
+    obtain ⟨hacc, _⟩ := hashSpec_ok_iff.1 hr
+    have hnR : norm "RNA" s = uToT (upper s) := by simp [norm]
+    rw [hnR] at hacc
+    have hlet : ∀ x ∈ uToT (upper s), x ∈ nucleotideLetters := by
+      rcases hacc with ⟨_, hl⟩ | ⟨hp, _⟩
+      · exact hl
+      · exact absurd hp (by decide)
+    unfold upper
+    conv => rhs; rw [← List.map_id (uToT (List.map Char.toUpper s))]
+    apply List.map_congr_left
+    intro x hx
+    exact table_nucleotide_upper x (hlet x hx)
+  rw [hash_of_upper_eq blake (hs.trans hu.symm) "DNA" c d]
+  exact h0
+
+theorem ascii_uToTCase : ∀ n : Fin 128,
+    (if Char.ofNat n.val = 'U' then 'T' else if Char.ofNat n.val = 'u' then 't' else Char.ofNat n.val).toUpper =
+      (if (Char.ofNat n.val).toUpper = 'U' then 'T' else (Char.ofNat n.val).toUpper) := by decide
+
+theorem upper_uToTCase (s : Str) : upper (Driver.C04.uToTCase s) = uToT (upper s) := by
+  unfold upper Driver.C04.uToTCase uToT
+  rw [List.map_map, List.map_map]
+  apply List.map_congr_left
+  intro c _
+  simp only [Function.comp]
+  rcases ascii_or_fixed c with h | ⟨h, _⟩
+  · exact forall_ascii (P := fun c => (if c = 'U' then 'T' else if c = 'u' then 't' else c).toUpper =
+        (if c.toUpper = 'U' then 'T' else c.toUpper)) ascii_uToTCase c h
+  · by_cases hU : c = 'U'
+    · subst hU; decide
+    · by_cases hu : c = 'u'
+      · subst hu; decide
+      · simp only [hU, hu, ↓reduceIte, h]
+
+theorem hash_rna_dna_case_preserving (blake : List UInt8 → List UInt8) (s : Str) (c d : Bool) (h : Str)
+    (hr : hashSpec blake s "RNA" c d = .ok h) :
+    hashSpec blake (Driver.C04.uToTCase s) "DNA" c d = .ok (h.set 3 'D') ∧ h[3]? = some 'R' :=
+  hash_rna_dna_spelling blake s _ c d h (upper_uToTCase s) hr
+
+/-- the judge's domain for the strand clause is literally the hypothesis of `hash_strand` -/
+theorem driver_strandDomain (s : Str) (ty : String) :
+    Driver.C04.strandDomain s ty = true ↔ Iupac15 (norm ty s) := by
+  unfold Driver.C04.strandDomain Iupac15
+  simp [List.all_eq_true]
 
 /-! ### the same four clauses for the model of the code itself
 
